@@ -561,7 +561,7 @@ impl Check for C14 {
     }
 
     fn rule(&self) -> String {
-        "fault modes of the external RNG {all-zero, all-ones, constant byte, short period 1/2/3/7/31/32/33, counter, stuck after n bytes, replayed stream} x pair kinds {identical; same commitment with shifted blindings under G_0=G_1; same commitment with traded value under H=G_0; context differs; one promise differs; one commitment differs; bit length differs} x {seed, no seed} are enumerated round-robin over seeded configurations; both runs of a pair are served the SAME stream; nonces are read as free-module coordinates per clean generator axis; additionally every value computable at each RNG rebuild point from the recorded public transcript plus the known stream (without witness rekeying) is compared with the observed nonces; one evaluation = one observed prover run or one oracle comparison; distinct = distinct event-log hashes".into()
+        "fault modes of the external RNG {all-zero, all-ones, constant byte, short period 1/2/3/7/31/32/33, counter, stuck after n bytes, replayed stream} x pair kinds {identical; same commitment with shifted blindings under G_a=G_b; the same with a witness assembled through the public fields whose first opening carries fewer blinding factors; same commitment with traded value under H=G_0; context differs; one promise differs; one commitment differs; bit length differs} x {seed, no seed} are enumerated round-robin over seeded configurations; both runs of a pair are served the SAME stream; nonces are read as free-module coordinates per clean generator axis; additionally every value computable at each RNG rebuild point from the recorded public transcript plus the known stream (without witness rekeying) is compared with the observed nonces; one evaluation = one observed prover run or one oracle comparison; distinct = distinct event-log hashes".into()
     }
 
     fn assumptions(&self) -> Vec<String> {
